@@ -223,7 +223,7 @@ fn main() {
     let quick = cfg.quick();
     let pts = lattice(quick);
     let n = pts.len() as u64;
-    let mut rep = par_range(&cfg, n * n * n, |i, r| { let t = [pts[(i % n) as usize], pts[(i / n % n) as usize], pts[(i / n / n) as usize]]; check_single(&t, r); check_single_order(&t, 1 + (i % 4) as usize, r); });
+    let mut rep = par_range(&cfg, n * n * n, |i, r| { let t = [pts[(i % n) as usize], pts[(i / n % n) as usize], pts[(i / n / n) as usize]]; check_single(&t, r); if quick || i % 4 == 1 { check_single_order(&t, 1 + (i / 4 % 4) as usize, r); } });
     rep.set("lattice_points", n);
     // colour attribute (values outside [0,1]) on every 5th triangle
     rep.merge(par_range(&cfg, n * n * n / 5, |j, r| { let i = j * 5 + j % 5; check_color_attr(&[pts[(i % n) as usize], pts[(i / n % n) as usize], pts[(i / n / n) as usize]], r) }));
